@@ -545,7 +545,7 @@ int run_check(const std::string &prop, int tier, uint64_t master, int jobs) {
   std::string lines;
   { char buf[4096]; ssize_t n; while ((n = read(pfd[0], buf, sizeof buf)) > 0) lines.append(buf, n); }
   close(pfd[0]);
-  struct Viol { uint64_t idx; std::string path, cls, sig, msg; bool nondet; };
+  struct Viol { uint64_t idx; std::string path, cls, sig, msg; bool nondet; bool died = false; };
   std::vector<Viol> viols;
   for (int w = 0; w < jobs; w++) {
     int st = 0;
@@ -553,7 +553,7 @@ int run_check(const std::string &prop, int tier, uint64_t master, int jobs) {
     bool clean = WIFEXITED(st) && WEXITSTATUS(st) == 0 && sh->done[w] == 1;
     if (!clean) {
       uint64_t idx = sh->cur_case[w];
-      Viol v; v.idx = idx; v.nondet = false;
+      Viol v; v.idx = idx; v.nondet = false; v.died = true;
       int code = WIFEXITED(st) ? WEXITSTATUS(st) : 128 + WTERMSIG(st);
       v.cls = code == 77 ? "sanitizer" : "crash";
       v.sig = v.cls;
@@ -598,6 +598,24 @@ int run_check(const std::string &prop, int tier, uint64_t master, int jobs) {
     std::string out;
     int rc = fresh_replay(v.path, &out);
     bool ok = (v.cls == "sanitizer") ? rc == 77 : (v.cls == "crash") ? rc >= 128 : rc == 0;
+    if (!ok && v.died && v.cls == "sanitizer") {
+      // A sanitizer's verdict can depend on what the process did before (ThreadSanitizer keeps four shadow cells per word and evicts
+      // pseudo-randomly, so whether an unordered pair is still visible depends on the detector's internal state; the simulated execution
+      // itself is identical).  The exact reproduction is then the dying worker's own history: the replay file gets a prelude naming
+      // the cases that worker executed before (w, w+jobs, ... of this check), shortest suffix first.
+      uint64_t w0 = v.idx % (uint64_t)jobs, hist = (v.idx - w0) / (uint64_t)jobs;
+      for (uint64_t k = 1; !ok && hist; k *= 2) {
+        if (k > hist) k = hist;
+        Case c = d->gen(case_seed(vmaster, v.idx), tier);
+        c.seed = case_seed(vmaster, v.idx);
+        c.p["prelude_first"] = (int64_t)(v.idx - k * (uint64_t)jobs); c.p["prelude_step"] = jobs; c.p["prelude_master"] = (int64_t)vmaster; c.p["prelude_tier"] = tier;
+        write_file(v.path, case_to_text(c, Verdict::fail(v.cls, v.msg + " [reproduced after re-executing the " + std::to_string(k) + " cases this worker process ran before it]", v.sig), 0));
+        out.clear();
+        rc = fresh_replay(v.path, &out);
+        ok = rc == 77;
+        if (k == hist) break;
+      }
+    }
     if (!ok) { printf("NONDETERMINISTIC property=%s case=%llu: fresh-process replay of %s did not reproduce class %s (status %d)\n%s\n", prop.c_str(), (unsigned long long)v.idx, v.path.c_str(), v.cls.c_str(), rc, out.substr(0, 2000).c_str()); nondet++; continue; }
     printf("VIOLATION property=%s replay=%s\n", prop.c_str(), v.path.c_str());
     printf("  class=%s case=%llu\n  %s\n", v.cls.c_str(), (unsigned long long)v.idx, v.msg.substr(0, 1500).c_str());
@@ -695,6 +713,20 @@ int run_replay(const std::string &path, bool gate) {
   if (!case_from_text(ss.str(), &c, &want, &hash)) { fprintf(stderr, "not a replay file\n"); return 2; }
   Driver *d = find_driver(c.prop);
   if (!d) { fprintf(stderr, "no driver for %s\n", c.prop.c_str()); return 2; }
+  if (c.p.count("prelude_step")) {     // re-create the detector state of the worker process that died (see run_check)
+    uint64_t first = (uint64_t)c.p["prelude_first"], step = (uint64_t)c.p["prelude_step"], vm = (uint64_t)c.p["prelude_master"]; int ptier = (int)c.p["prelude_tier"];
+    uint64_t last = first;
+    for (uint64_t i = first; step; i += step) {
+      uint64_t cs = case_seed(vm, i);
+      if (cs == c.seed) break;
+      if (i - first > 100000 * step) { fprintf(stderr, "prelude does not lead to the recorded case\n"); return 2; }
+      Case pc = d->gen(cs, ptier); pc.seed = cs;
+      Ctx px; px.tier = ptier;
+      d->eval(pc, px);
+      last = i;
+    }
+    if (!gate) printf("prelude: re-executed cases %llu..%llu (step %llu) of this check first\n", (unsigned long long)first, (unsigned long long)last, (unsigned long long)step);
+  }
   Ctx ctx; ctx.verbose = !gate;
   Verdict v = d->eval(c, ctx);
   if (!gate) {
